@@ -35,15 +35,15 @@ FACTS = [
     r'struct parse_table_entry\s*\{\s*parse_table_entry_kind kind = parse_table_entry_kind::error;\s*size16_t arg = uninitialized16;\s*size8_t has_sr_conflict = 0;\s*size16_t sr_conflict_rule_info_idx = uninitialized16;\s*\};',
     r'struct situation_info\s*\{\s*size16_t rule_info_idx = uninitialized16;\s*size16_t after = uninitialized16;\s*size16_t t = uninitialized16;\s*\};',
     r'bool term;\s*size16_t idx;\s*\};',
-    r'struct grammar_info\s*\{\s*symbol right_sides\[rule_count\]\[max_rule_element_count\] = \{ \};\s*rule_info rule_infos\[rule_count\] = \{ \};\s*utils::slice nterm_rule_slices\[nterm_count\] = \{ \};\s*int term_precedences\[term_count\] = \{ \};\s*associativity term_associativities\[term_count\] = \{ \};\s*int rule_precedences\[rule_count\] = \{ \};\s*associativity rule_associativities\[rule_count\] = \{ \};\s*size16_t rule_last_terms\[rule_count\] = \{ \};\s*\};',
+    r'struct grammar_info\s*\{\s*symbol right_sides\[rule_count\]\[max_rule_element_count\] = \{ \};\s*rule_info rule_infos\[rule_count\] = \{ \};\s*utils::slice nterm_rule_slices\[nterm_count\] = \{ \};\s*\w+ term_precedences\[term_count\] = \{ \};\s*associativity term_associativities\[term_count\] = \{ \};\s*\w+ rule_precedences\[rule_count\] = \{ \};\s*associativity rule_associativities\[rule_count\] = \{ \};\s*size16_t rule_last_terms\[rule_count\] = \{ \};\s*\};',
     r'struct slice\s*\{\s*size32_t start;\s*size32_t n;\s*\};',
     r'using lr1_parse_table = parse_table_entry\[state_count_cap\]\[symbol_count\];',
-    r'struct source_point\s*\{\s*size32_t line = 1;\s*size32_t column = 1;',
+    r'struct source_point\s*\{\s*\w+ line = 1;\s*\w+ column = 1;',
     r'bool verbose = false;\s*bool skip_whitespace = true;\s*bool skip_newline = true;\s*\};',
     r'size16_t term_idx = uninitialized16;\s*\w+ len = uninitialized16;\s*\};',
 ]
 
-RT_TYPEDEFS = [('vx_rt_len_t', r'size16_t term_idx = uninitialized16;\s*(\w+) len = uninitialized16;\s*\};', None)]
+RT_TYPEDEFS = [('vx_sp_line_t', r'struct source_point\s*\{\s*(\w+) line = 1;', None), ('vx_sp_col_t', r'struct source_point\s*\{\s*\w+ line = 1;\s*(\w+) column = 1;', None), ('vx_tprec_t', r'(\w+) term_precedences\[term_count\] = \{ \};', None), ('vx_rprec_t', r'(\w+) rule_precedences\[rule_count\] = \{ \};', None), ('vx_rt_len_t', r'size16_t term_idx = uninitialized16;\s*(\w+) len = uninitialized16;\s*\};', None)]
 UNINIT = [('uninitialized', r'constexpr\s+size_t\s+uninitialized\s*=\s*([^;]+);', None),
           ('uninitialized16', r'constexpr\s+size16_t\s+uninitialized16\s*=\s*([^;]+);', None),
           ('uninitialized32', r'constexpr\s+size32_t\s+uninitialized32\s*=\s*([^;]+);', None)]
@@ -71,13 +71,13 @@ struct grammar_info {
   struct symbol right_sides[PH_RULES][PH_MAXLEN];
   struct rule_info rule_infos[PH_RULES];
   struct utils__slice nterm_rule_slices[PH_NTERMS];
-  int term_precedences[PH_TERMS];
+  vx_tprec_t term_precedences[PH_TERMS];    /* element type from the real declaration (R16) */
   int term_associativities[PH_TERMS];
-  int rule_precedences[PH_RULES];
+  vx_rprec_t rule_precedences[PH_RULES];    /* element type from the real declaration (R16) */
   int rule_associativities[PH_RULES];
   size16_t rule_last_terms[PH_RULES];
 };
-struct source_point { size32_t line; size32_t column; };
+struct source_point { vx_sp_line_t line; vx_sp_col_t column; };   /* member types from the real declaration (R16) */
 struct parse_options { bool verbose; bool skip_whitespace; bool skip_newline; };
 struct match_options { bool verbose; };
 struct recognized_term { size16_t term_idx; vx_rt_len_t len; };   /* member type from the real declaration (R16) */
